@@ -62,7 +62,7 @@ def gen_members(case, R, block, limit):
     sizes = case.get("sizes") or size_list(R, block, min(limit, 4 * block))
     pool = NAME_POOL[:]
     R.shuffle(pool)
-    datas = [texture(R, R.choice(["random", "rep", "code"]), n) for n in sizes]
+    datas = [texture(R, case.get("texture") or R.choice(["random", "rep", "code"]), n) for n in sizes]
     return sizes, pool, datas
 
 
